@@ -242,6 +242,14 @@ def run(prop, tier):
                 jobs.append(((first, late), ("A", "A"), None, False))
                 jobs.append(((late, first), ("A", "A"), None, False))
 
+        # hosts whose clocks are hours apart (booted at different times) and an offset table that brings them together:
+        # the corrected times are what counts, for the order and for every plausibility test
+        for H in (2 * 3600 * 10 ** 9, 26 * 3600 * 10 ** 9 + 7):
+            for a, b in (((0, 1), (H, H + 1)), ((0, 5), (H + 1, H + 1, H + 5)), ((H, H + 1), (0, 1))):
+                far = "h2" if b[0] >= H else "h1"
+                jobs.append(((a, b), ("h1", "h2"), {far: -H, ("h1" if far == "h2" else "h2"): 0}, False))
+                jobs.append(((a, b, a), ("h1", "h2", "h1"), {far: -H, ("h1" if far == "h2" else "h2"): 3}, False))
+
         def one_emu(j):
             combo, looms, ot, zero = j
             td = os.path.join(base, "e%d" % os.getpid())
@@ -277,7 +285,7 @@ def run(prop, tier):
 
         # ---- (d) directory creation order
         jobs = []
-        for fam in (0, 1):
+        for fam in (0, 1, 2):
             for combo in itertools.product([(0, 1), (1, 1), (0, 0)], repeat=3):
                 jobs.append((fam, combo))
 
@@ -286,12 +294,22 @@ def run(prop, tier):
             outs = set()
             for order in itertools.permutations(range(3)):
                 td = os.path.join(base, "p%d" % os.getpid())
-                if fam == 0:
+                if fam in (0, 2):
                     st = [(("B", "A", "B")[i], 10 + i, 100 + (7 * i) % 3, life([1000 + x for x in c], 100 + (7 * i) % 3)) for i, c in enumerate(combo)]
                 else:
                     # the same pid and tid in two looms (containers, several nodes): only the loom tells the streams apart
                     st = [(("A", "B", "B")[i], (10, 10, 11)[i], 100, life([1000 + x for x in c], 100)) for i, c in enumerate(combo)]
                 write_trace(td, st, order=list(order))
+                if fam == 2 and order[0] != 0:
+                    # streams gathered from several places: a loom directory, a process directory or a thread directory of the
+                    # trace is a symbolic link to where the files really are (the plain layout is among the six orders too)
+                    ext = td + "-ext"
+                    shutil.rmtree(ext, ignore_errors=True)
+                    os.makedirs(ext)
+                    rel = obs.relpath(st[order[0]][0], st[order[0]][1], st[order[0]][2])
+                    what = [rel, os.path.dirname(rel), os.path.dirname(os.path.dirname(rel))][order[1] % 3]
+                    shutil.move(os.path.join(td, what), os.path.join(ext, "moved"))
+                    os.symlink(os.path.join(ext, "moved"), os.path.join(td, what))
                 rc, out, err = emusrv.run_tool(emu, [td])
                 blob = [rc]
                 for n in ("thread.prv", "cpu.prv", "thread.row", "cpu.row"):
@@ -303,7 +321,7 @@ def run(prop, tier):
             ctx.add(evaluations=6, transitions=6, traces_validated_against_impl=6)
             if n != 1:
                 ctx.violation("output depends on the creation order of the stream directories for streams %r%s (%d distinct outputs)" % (
-                    combo, " (same pid/tid in two looms)" if fam else "", n),
+                    combo, (" (same pid/tid in two looms)", " (a loom, process or thread directory reached through a symbolic link)")[fam - 1] if fam else "", n),
                     {"engine": "E6 ovniemu", "streams": [list(c) for c in combo], "check": "creation-order", "family": fam}, {"kind": "dir-order"})
         ctx.part("creation-order", contents=len(jobs), orders_each=6)
         ctx.sample({"ovnidump_streams": [[0, 1], [1, BIG], []]})
